@@ -58,7 +58,7 @@ def harness(tier, seed):
             rows_ += len(ode) - 1
         return None, rows_
 
-    n_seq = 10 if tier == "quick" else 46      # six scripted histories, the rest random
+    n_seq = 11 if tier == "quick" else 47      # seven scripted histories, the rest random
     for (system, ctrl) in pairs:
         inst = Instance(system, ctrl)
         for cls in (FigureOfMerit, FigureOfMeritLE):
@@ -101,7 +101,9 @@ def harness(tier, seed):
                            ["eval", "set_model", "eval", "set_model2", "eval", "set_raw", "eval", "get_diff", "set_model2", "set_model",
                             "init", "eval", "get_diff"],
                            # a surrogate switched in before anything was recorded, then initialize(): back on the real system
-                           ["set_model", "init", "eval", "get_diff", "set_model", "eval", "init", "eval", "get_diff"]]
+                           ["set_model", "init", "eval", "get_diff", "set_model", "eval", "init", "eval", "get_diff"],
+                           # a diverging parameter vector (every training case fails) between two ordinary evaluations
+                           ["eval", "eval_div", "get_diff", "eval", "eval_div", "eval_div", "get_diff"]]
                 if sq < len(scripts):
                     ops = scripts[sq]
                 else:
@@ -110,9 +112,11 @@ def harness(tier, seed):
                 for op in ops:
                     trace.append(op)
                     info = {"system": system.name, "controller": ctrl.name, "objective": cls.__name__, "trace": list(trace)}
-                    if op == "eval":
+                    if op in ("eval", "eval_div"):
                         # 1e30: every training case fails at once (the result must be the failure value 1e200)
                         scale = rng.choice([0.1, 1.0, 3.0, 10.0, 1e30]) if sq >= len(scripts) else rng.choice([0.1, 1.0])
+                        if op == "eval_div":
+                            scale = 1e30
                         x = np.array([rng.uniform(-1, 1) * scale for _ in range(ctrl.param_dims)])
                         info["x"] = x.tolist()
                         import signal
